@@ -318,7 +318,7 @@ def cfg(constants, spec="Spec", invariants=(), properties=(), constraint=None, v
     if constants:
         lines.append("CONSTANTS")
         for k, v in constants.items():
-            lines.append("  %s = %s" % (k, v))
+            lines.append("  %s <- %s" % (k, v[3:]) if isinstance(v, str) and v.startswith("<- ") else "  %s = %s" % (k, v))
     if invariants:
         lines.append("INVARIANTS " + " ".join(invariants))
     if properties:
